@@ -153,8 +153,8 @@ CHECKS = {
         category='model_checking', design_ref='6/C20',
         text='Each program is compiled alone in a fresh process (PYTHONHASHSEED=0), in fresh processes with other hash seeds, after unrelated compilations with garbage objects kept alive, twice in a row, and in one long-lived process; '
              'verdicts must be identical and every machine must be observationally equivalent to the reference - decided by TLC bisimulation (Equiv.tla, no slack), never by comparing emitted text.',
-        note='Address-dependent behaviour is probed by perturbation, not enumerated.',
-        technique='TLC bisimulation of machines from perturbed compilation histories', thorough=True),
+        note='Address-dependent behaviour is probed by perturbation, not enumerated. The emitted C is covered for compilations late in a long-lived process: those binaries are bound to the machine exported by the same call by TLC trace validation (StepTrace sweeps, ApiTrace whole-chunk traces).',
+        technique='TLC bisimulation of machines from perturbed compilation histories + TLC trace validation of the C emitted by compilations with a history', thorough=True),
 }
 
 NOT_YET = 'check not built yet in this session (specification work in progress); see DESIGN.md section 12'
